@@ -5,11 +5,17 @@ Every string of several finite families is (1) parsed and (2) evaluated by the r
 `parse` / `evaluator`, and compared with the independent reference in mcv/refs/expr.py:
 language membership must agree exactly, accepted strings must give the reference value
 (or the same kind of error), under three variable bindings.
+
+Further families do not go through the reference parser for their expected value: operator trees whose
+value is computed on the tree (E7), hand-tokenised formulas with one separator inserted (E8, judged like E1),
+foreign characters (E9, always a parse error), a table of constant expressions through evaluator() with
+default scope and through Numerical/Formula/MatrixGrader (E10), and depth/length schemes with closed forms (E11).
 """
 import itertools
 import math
 from ..core import Family, Result, viol, HarnessError
 from ..refs import expr as R
+from ..refs import c03_trees as T
 
 import mitxgraders.helpers.calc.expressions as X
 from mitxgraders.helpers.calc import exceptions as CE
@@ -19,13 +25,25 @@ from mitxgraders.exceptions import MITxError, StudentFacingError
 PROPERTY = 'C03'
 RULE = ('all token strings up to a length bound (E1), all literal-character strings up to a length bound (E3), '
         'all operator chains x sign subsets x renderings (E2), name tables (E4); a string is non-trivial when it '
-        'is in the language; a chain when at least one plausible wrong grammar gives a different value')
+        'is in the language; a chain when at least one plausible wrong grammar gives a different value; all operator '
+        'TREES up to 3 operators x negation subsets in minimal and full parenthesisation x leaf kinds x bindings (E7); '
+        'one whitespace separator at every position of hand-tokenised formulas (E8); every foreign character of a '
+        'Unicode table at every position of short formulas (E9); a table of constant expressions through every '
+        'evaluation door with the scope left at its defaults (E10); one-parameter formula schemes at growing depth / length (E11)')
 EXPLANATION = ('states = distinct strings/chains enumerated; transitions = calls of the real parse()/evaluator(); '
                'the reference parser/evaluator is an oracle only, every case runs the implementation')
 ASSUMPTIONS = ['reference grammar transcribed from the documentation and the property statement (mcv/refs/expr.py)',
                'numeric agreement within relative 1e-9',
                'array arithmetic beyond + - scalar* /scalar is not constrained here (C14 does that)',
-               'which of several applicable error kinds is reported is not constrained, except parse errors']
+               'which of several applicable error kinds is reported is not constrained, except parse errors',
+               'E7/E11: Python float/complex arithmetic (including ** with its principal complex branch) is the trusted base; '
+               'the tree / closed form fixes the GROUPING, which is what is under test',
+               'E9: characters that Python regards as whitespace are not tried at the two ends of a string (evaluator() strips '
+               'them before parsing; the statement does not say whether that is allowed)',
+               'E10: the literal answers are themselves read by the library (plain decimal literals, and a+b*i for complex '
+               'targets); every target is non-zero and the near-miss is off by 1e-4 relative against a 1e-7 relative tolerance',
+               'nesting deeper than about 45 levels of parentheses exhausts the interpreter stack inside pyparsing '
+               '(RecursionError from evaluator, a generic student-facing error from a grader); E11 stops at depth 34']
 
 
 def f_user(t):
@@ -229,6 +247,8 @@ class TokenStrings(Family):
 
 E1_TOKENS = ['2', '.5', 'x', 'f', '+', '-', '*', '/', '^', '||', '(', ')', '[', ']', ',']
 E3_CHARS = ['1', '0', '.', 'e', 'E', '+', '-', '%', 'k', ' ']
+# suffix characters next to names, calls, brackets and operators (E1 has no suffix token, E3 no names/brackets/operators)
+E1S_TOKENS = ['2', 'x', 'f', '(', ')', '%', 'k', '^', '-', '*']
 
 OPS = ['+', '-', '*', '/', '^', '||']
 LEAVES = [2.0, 3.0, 1.5, 0.5, 1.25]
@@ -378,7 +398,10 @@ E4_ATOMS = ['x', 'X', 'x1', 'x_1', "x'", "x''", 'a_{1}^{2}', 'T_{ij}', 'sin', 'a
             'a', 'f(2)', 'F(2)', "f'(2)", 'g(2,3)', 'g(3,2)', 'sin(2)', 'sin(sin)', 'f(x)', 'F(X)',
             # not in scope / confusable / malformed
             'Sin(2)', 'y', 'x2', 'x_', "x'1", 'a_{1', 'a_{}', 'a_{1}_{2}', 'a_b_{1}', "f''(2)", 'G(2,3)', 'g(2)', 'f(2,3)',
-            'a^{2}^{3}', 'a_{1}^{2}^{3}', 'T_{i j}', 'a_{i+1}', '2x', '2X', 'x 1', 'x(2)', 'X (2)', 'sin 2', 'f f(2)']
+            'a^{2}^{3}', 'a_{1}^{2}^{3}', 'T_{i j}', 'a_{i+1}', '2x', '2X', 'x 1', 'x(2)', 'X (2)', 'sin 2', 'f f(2)',
+            # (appended, indices above are referenced by stored replays) names that differ from a name in scope ONLY by
+            # case and whose other-case spelling is NOT in scope: a case-insensitive fallback would resolve them
+            'A', 't_{ij}', "X'", 'XY_z_2', 'SIN', "F'(2)", 'A_{1}^{2}']
 E4_OPS = ['+', '*', '^', '||', '-', '/']
 
 
@@ -635,6 +658,7 @@ FRONT = [
     ('１', None, 'parse'), ('1,2', None, 'parse'), ('2**3', None, 'parse'), ('2//3', None, 'parse'), ('2|3', None, 'parse'),
     ('2|||3', None, 'parse'), ('2 | | 3', None, 'val'), ('!2', None, 'parse'), ('2!', None, 'parse'), ('"2"', None, 'parse'),
     ('2 3 4', None, 'val'), ('(2)(3)', None, 'parse'), ('2(3)', None, 'parse'), ('(2)3', None, 'parse'), ('x y', None, 'err'),
+    (None, None, 'nan'), (None, 0, 'nan'), ('\t\n', 0, 'nan'),
 ]
 
 
@@ -669,6 +693,625 @@ class FrontDoor(Family):
         return Result(got, True)
 
 
+# ------------------------------------------------------------------------------------------ E7: operator trees
+
+def h_plus1(t):
+    return t + 1
+
+
+TREE_VAR_NAMES = ['p', 'q_1', "r'", 'T_{ab}', 'u2']
+TREE_MIX_TXT = ['h(1)', '300%', 'g(3.5,1)', '5e-1', '(1.25)']
+TREE_COMPLEX = [complex(2, 1), 3.0, complex(1.5, -0.5), 0.5, complex(0, 1.25)]
+
+
+class Trees(Family):
+    """E7: parentheses override precedence; redundant parentheses change nothing"""
+    name = 'E7_trees'
+    timeout = 20.0
+    rule = ('every binary operator TREE with n <= 3 operator nodes (every shape x every operator assignment from '
+            '{+,-,*,/,^,||}) x unary minus on subsets of its 2n+1 nodes x leaf style {number literals; variables with plain, '
+            'subscripted, primed and tensor names bound to floats, to complex numbers and to int / numpy scalars; mixed atoms: '
+            'calls of 1- and 2-argument functions, %-suffixed, exponent-form and parenthesised numbers}; the value is computed on '
+            'the tree itself (no parser); each tree is written (a) with the fewest parentheses the documented precedence table '
+            'allows and (b) with one pair around every node.  Which (negation subset, style) pairs run per tier is stated in '
+            'Trees.cases; thorough adds n = 4.  non-trivial = the minimal form needs at least one pair of parentheses')
+
+    def setup(self, tier):
+        import numpy as np
+        self.var_bindings = [
+            ('float', list(LEAVES), list(LEAVES)),
+            ('complex', list(TREE_COMPLEX), list(TREE_COMPLEX)),
+            ('int/numpy', [2, np.int64(3), np.float64(1.5), 0.5, np.float64(1.25)], list(LEAVES)),
+        ]
+        self.funcs = {'h': h_plus1, 'g': g2}
+
+    def isolate(self):
+        X.PARSER = X.MathParser()
+
+    def cases(self, tier):
+        """
+        case = (n, shape, ops, negmask, style); style 0 = number literals, 1 = variables (3 bindings), 2 = mixed atoms.
+        quick:    n = 1: everything.  n = 2: literals with every negation subset, the other two styles with at most one
+                  negated node.  n = 3: every tree un-negated as literals, and once more with ONE single-node negation in ONE
+                  of the two other styles, both chosen by rotation over the running tree index (so every node position and
+                  both styles occur for every shape; the full product is in the thorough tier).
+        thorough: n = 3: literals with every negation subset of at most two nodes, the other styles with at most one negated
+                  node; n = 4: literals, un-negated and one rotating single-node negation.
+        """
+        nmax = 4 if tier == 'thorough' else 3
+        for n in range(1, nmax + 1):
+            nn = 2 * n + 1
+            every = list(range(2 ** nn))
+            upto1 = [0] + [1 << k for k in range(nn)]
+            upto2 = upto1 + [(1 << a) | (1 << b) for a in range(nn) for b in range(a + 1, nn)]
+            idx = 0
+            for si in range(T.n_shapes(n)):
+                for ops in itertools.product(range(len(OPS)), repeat=n):
+                    idx += 1
+                    rot = 1 << (idx % nn)
+                    if n == 1:
+                        plan = [(m, st) for m in every for st in (0, 1, 2)]
+                    elif n == 2:
+                        plan = [(m, 0) for m in every] + [(m, st) for m in upto1 for st in (1, 2)]
+                    elif n == 3 and tier == 'thorough':
+                        plan = [(m, 0) for m in upto2] + [(m, st) for m in upto1 for st in (1, 2)]
+                    elif n == 3:
+                        plan = [(0, 0), (rot, 1 + idx % 2)]
+                    else:
+                        plan = [(0, 0), (rot, 0)]
+                    for m, st in plan:
+                        yield (n, si, ops, m, st)
+
+    def tree(self, case):
+        n, si, ops, m = case[:4]
+        return T.build(T.shape(n, si), [OPS[i] for i in ops], m)
+
+    def describe(self, case):
+        node = self.tree(case)
+        txt = [LEAF_TXT, TREE_VAR_NAMES, TREE_MIX_TXT][case[4]]
+        d = {'minimal': T.render_min(node, txt)[0], 'full': T.render_full(node, txt)}
+        if case[4] == 1:
+            d['variables'] = 'bound to %r, then %r, then ints/numpy scalars of the first' % (LEAVES, TREE_COMPLEX)
+        if case[4] == 2:
+            d['scope'] = 'h(t)=t+1, g(a,b)=a-2b, %=0.01'
+        return d
+
+    @staticmethod
+    def oracle(node, vals):
+        try:
+            v = T.ev(node, vals)
+        except ZeroDivisionError:
+            return ('err', 'zerodiv')
+        except OverflowError:
+            return ('err', 'overflow')
+        if R.isnan(v):
+            return ('err', 'nan')
+        try:
+            R.finite_check(v)
+        except R.RefEvalError:
+            return ('err', 'overflow')
+        return ('val', v)
+
+    def check(self, case):
+        node = self.tree(case)
+        nested_par = T.has_nested_parallel(node)
+        _txt, _lvl, pairs = T.render_min(node, LEAF_TXT)
+        nontrivial = pairs > 0
+        # harness self-check: the independent reference parser reads the minimal form as this tree
+        exp_num = self.oracle(node, LEAVES)
+        try:
+            ast, _, _, _ = R.parse(_txt)
+            try:
+                rv = ('val', R.evaluate(ast, {}, {}, {}))
+            except R.RefEvalError as e:
+                rv = ('err', e.kind)
+        except R.RefParseError as e:
+            raise HarnessError('minimal rendering %r is not in the reference grammar: %s' % (_txt, e))
+        if not nested_par and exp_num[0] != 'err' and rv[0] != 'err':
+            if not R.close(rv[1], exp_num[1], 1e-7):
+                raise HarnessError('reference parser and tree disagree on %r: %r vs %r' % (_txt, rv, exp_num))
+        st = case[4]
+        if st == 0:
+            runs = [('num', LEAF_TXT, {}, {}, {}, LEAVES)]
+        elif st == 1:
+            runs = [('var:' + bname, TREE_VAR_NAMES, dict(zip(TREE_VAR_NAMES, binding)), {}, {}, ovals)
+                    for bname, binding, ovals in self.var_bindings]
+        else:
+            runs = [('mix', TREE_MIX_TXT, {}, self.funcs, SUFFIXES, LEAVES)]
+        calls = 0
+        outcome = None
+        for style, txt, V, F, S, ovals in runs:
+            exp = self.oracle(node, ovals)
+            if exp[0] == 'err' and exp[1] == 'nan':
+                continue
+            for rname, s in (('minimal', T.render_min(node, txt)[0]), ('full', T.render_full(node, txt))):
+                calls += 1
+                try:
+                    val, _ = X.evaluator(s, V, F, S)
+                    got = ('val', val)
+                except Exception as e:
+                    got = ('err', real_kind(e), '%s: %s' % (type(e).__name__, e))
+                where = '%s form %r (%s%s)' % (rname, s, style, (' ' + repr(V)) if V else '')
+                if exp[0] == 'val':
+                    if got[0] != 'val':
+                        return Result('value', nontrivial,
+                                      viol('E7:%s:error-instead-of-value' % rname,
+                                           '%s: the tree evaluates to %r, got %s' % (where, exp[1], got[2]), exp[1], got[2]), calls)
+                    if not R.close(exp[1], got[1]):
+                        return Result('value', nontrivial,
+                                      viol('E7:%s:wrong-value' % rname,
+                                           '%s: the tree evaluates to %r, got %r' % (where, exp[1], got[1]), exp[1], got[1]), calls)
+                    outcome = outcome or ('complex' if isinstance(exp[1], complex) else 'real')
+                else:
+                    if rname == 'minimal' and nested_par:
+                        continue            # a||b||c is the n-ary reciprocal sum: it may exist where (a||b) alone does not
+                    if got[0] == 'val':
+                        return Result('err', nontrivial,
+                                      viol('E7:%s:value-instead-of-error' % rname,
+                                           '%s: the tree has no value (%s), got %r' % (where, exp[1], got[1]), exp[1], got[1]), calls)
+                    if got[1] not in ('zerodiv', 'overflow'):
+                        return Result('err', nontrivial,
+                                      viol('E7:%s:wrong-error-kind' % rname,
+                                           '%s: expected a %s error, got %s' % (where, exp[1], got[2]), exp[1], got[2]), calls)
+                    outcome = outcome or ('err:' + exp[1])
+        return Result(outcome or 'none', nontrivial, None, calls)
+
+
+# ------------------------------------------------------------------------------------------ E8: one separator anywhere
+
+WS_VARS = {'x_1': 1.5, "T_{ij}'": -0.75, 'a': 3.0, 'a_{-1}': 0.5, 'a^{2}': 41.0}
+WS_FUNCS = {'g': (2, g2)}
+# hand-tokenised formulas: the token boundaries are data, not computed
+WS_BASES = [
+    ['g', '(', '2.5e1', 'k', ',', 'x_1', ')', '^', '-', "T_{ij}'"],
+    ['[', '1.5', ',', '-', 'a', ']', '*', '2', '%'],
+    ['-', 'f', '(', 'a', '|', '|', '6', ')', '/', 'x_1', '+', '.5E-1'],
+    ['a_{-1}', '^', '-', '2', '^', 'x', '-', '1.25e+2', '%'],
+    ['(', '(', 'a', ')', ')', '*', '[', '[', '1', ',', '2', ']', ',', '[', '3', ',', '4', ']', ']', '/', '4'],
+    ['2', '|', '|', '-', '3', '|', '|', 'x'],
+    ['a^{2}', '-', '1e-3', 'k', '*', 'g', '(', '-', 'a', ',', '+', '2', ')'],
+]
+WS_SEPS = [' ', '\t', '\n', '\r', '\r\n', '  \t']
+WS_DASH = ['-', '—']
+
+
+class InsertedWhitespace(Family):
+    """E8: where exactly may which kind of whitespace stand"""
+    name = 'E8_whitespace'
+    timeout = 20.0
+    rule = ('%d hand-tokenised formulas (function calls with 2 arguments, vector and matrix literals, suffixed and '
+            'exponent-form numbers, subscripted / tensor / primed names, all operators) written with minus as %r; ONE '
+            'separator from %r inserted at ONE character position (every position), or at all token boundaries at once, or '
+            'between all characters at once: a space changes nothing anywhere, a tab / line break changes nothing between '
+            'tokens and makes the string invalid inside a number or a name; judged against the reference grammar like E1 '
+            '(language membership + value under 3 bindings of x)' % (len(WS_BASES), WS_DASH, WS_SEPS))
+
+    def setup(self, tier):
+        self.j = make_judge(WS_VARS, WS_FUNCS)
+
+    def isolate(self):
+        X.PARSER = X.MathParser()
+
+    def cases(self, tier):
+        for b in range(len(WS_BASES)):
+            n = len(''.join(WS_BASES[b]))
+            for d in range(len(WS_DASH)):
+                if d and '-' not in ''.join(WS_BASES[b]):
+                    continue
+                for sp in range(len(WS_SEPS)):
+                    for pos in range(-2, n + 1):
+                        yield (b, d, sp, pos)
+
+    def text(self, case):
+        b, d, sp, pos = case
+        toks = [t.replace('-', WS_DASH[d]) for t in WS_BASES[b]]
+        sep = WS_SEPS[sp]
+        if pos == -2:       # at every token boundary
+            return sep + sep.join(toks) + sep
+        if pos == -1:       # between all characters
+            return sep.join(''.join(toks))
+        s = ''.join(toks)
+        return s[:pos] + sep + s[pos:]
+
+    def describe(self, case):
+        return self.text(case)
+
+    def check(self, case):
+        b, d, sp, pos = case
+        s = self.text(case)
+        base = ''.join(WS_BASES[b])
+        sep = WS_SEPS[sp]
+        # harness self-checks on the oracle: a space anywhere and a separator at a token boundary keep the string valid
+        bounds = set([0])
+        k = 0
+        for t in WS_BASES[b]:
+            k += len(t)
+            bounds.add(k)
+        must_be_valid = (sep == ' ' and d == 0) or (d == 0 and (pos == -2 or pos in bounds))
+        if must_be_valid:
+            try:
+                R.parse(s)
+            except R.RefParseError as e:
+                raise HarnessError('reference rejects %r although only token-boundary whitespace was added to %r: %s' % (s, base, e))
+        return self.j.judge(s, 'E8')
+
+
+# ------------------------------------------------------------------------------------------ E9: foreign characters
+
+def _uni_tables():
+    import unicodedata
+    ascii_foreign = list('!"#$&:;<=>?@\\`~') + ['{', '}']
+    controls = ['\x00', '\x07', '\x08', '\x0b', '\x0c', '\x1b', '\x1c', '\x1f', '\x7f', '\x85']
+    latin1 = [chr(c) for c in range(0xA0, 0x100)]
+    greek = [chr(c) for c in range(0x391, 0x3CA) if c != 0x3A2]
+    selected = [
+        '‐', '‑', '‒', '–', '―', '−', '﹘', '﹣', '－',      # dashes that are NOT the em-dash
+        '∕', '⁄', '∗', '∙', '⋅', '∥', '‖', '√', '∞', '∣',
+        ' ', ' ', '​', '‌', '‍', '⁠', '﻿', ' ', ' ', '　', ' ', ' ',
+        'K', 'Å', 'ſ', 'ı', 'İ', 'ﬁ', 'ẞ',                             # case-folding traps (Kelvin K, long s, dotless i)
+        '＋', '＊', '／', '＾', '（', '）', '［', '］', '．', '，', '％', '｜',
+        'ｘ', 'ｅ', 'Ｅ', 'ｋ', '１',
+        '⁰', '⁴', '⁺', '⁻', '₀', '₁', '⅛', '①', 'Ⅰ', '〇', '二',
+        'а', 'е', 'х', 'і',                                                          # Cyrillic look-alikes of a e x i
+        '\U0001d465', '\U0001d452', '\U0001d7ce', '\U0001d7d9', '\U0001f100',
+    ]
+    ranges = [(0xA0, 0x180), (0x370, 0x400), (0x400, 0x460), (0x2000, 0x2070), (0x2070, 0x20A0), (0x2150, 0x2190),
+              (0x2200, 0x2240), (0x2460, 0x2474), (0xFF00, 0xFF5F), (0x1D400, 0x1D7FF + 1)]
+    wide = []
+    for lo, hi in ranges:
+        wide.extend(chr(c) for c in range(lo, hi))
+    wide = [c for c in wide if c != '—']
+    digits = [chr(c) for c in range(0x80, 0x110000) if unicodedata.category(chr(c)) == 'Nd']
+    numberlike = [chr(c) for c in range(0x80, 0x3400) if unicodedata.category(chr(c)) in ('No', 'Nl')]
+
+    def uniq(seq):
+        seen = set()
+        out = []
+        for c in seq:
+            if c not in seen and c != '—':
+                seen.add(c)
+                out.append(c)
+        return out
+    quick = uniq(ascii_foreign + controls + latin1 + greek + selected)
+    thorough = uniq(quick + wide)
+    return quick, thorough, uniq(digits), uniq(digits + numberlike)
+
+
+FC_QUICK, FC_THOROUGH, FC_DIGITS, FC_NUMBERLIKE = _uni_tables()
+FC_INSERT_BASES = ['2+3', 'x*f(2)', '1.5e3k', '23', '[x,-2]']
+FC_DIGIT_FORMS = ['%s', '1%s', '%s.5', '1e%s', '1.%se2', 'x%s', 'x_{%s}', '2^%s', '%s%%']
+
+
+class ForeignCharacters(Family):
+    """E9: characters outside the alphabet of the grammar"""
+    name = 'E9_foreign_chars'
+    timeout = 20.0
+    rule = ('(a) every character of a table (ASCII punctuation outside the grammar, control characters, Latin-1, Greek, '
+            'dashes other than the em-dash, Unicode operators, invisible and non-ASCII spaces, case-folding traps such as the '
+            'Kelvin sign, full-width forms, look-alike letters; thorough: whole Unicode blocks) inserted at every position of '
+            '%r; (b) every Unicode decimal digit outside ASCII (thorough: also every other numeric character) in the digit '
+            'slot of %r: always a parse error, from parse() and from evaluator(); characters Python regards as whitespace '
+            'are not tried at the two ends of the string (evaluator strips them; not constrained)'
+            % (FC_INSERT_BASES, FC_DIGIT_FORMS))
+
+    def setup(self, tier):
+        self.V = {'x': 2.0}
+        self.F = {'f': f_user}
+
+    def isolate(self):
+        X.PARSER = X.MathParser()
+
+    def cases(self, tier):
+        chars = FC_THOROUGH if tier == 'thorough' else FC_QUICK
+        for ch in chars:
+            for b in range(len(FC_INSERT_BASES)):
+                for pos in range(len(FC_INSERT_BASES[b]) + 1):
+                    if ch.isspace() and pos in (0, len(FC_INSERT_BASES[b])):
+                        continue
+                    yield ('ins', ord(ch), b, pos)
+        digits = FC_NUMBERLIKE if tier == 'thorough' else FC_DIGITS
+        for ch in digits:
+            for f in range(len(FC_DIGIT_FORMS)):
+                yield ('dig', ord(ch), f, 0)
+
+    def text(self, case):
+        mode, code, b, pos = case
+        ch = chr(code)
+        if mode == 'ins':
+            base = FC_INSERT_BASES[b]
+            return base[:pos] + ch + base[pos:]
+        return FC_DIGIT_FORMS[b] % ch
+
+    def describe(self, case):
+        import unicodedata
+        s = self.text(case)
+        return {'string': s, 'char': 'U+%04X %s' % (case[1], unicodedata.name(chr(case[1]), '?'))}
+
+    def check(self, case):
+        import unicodedata
+        s = self.text(case)
+        cat = unicodedata.category(chr(case[1]))
+        outcome = None
+        for door in ('parse', 'evaluator'):
+            try:
+                if door == 'parse':
+                    X.parse(s)
+                    got = 'accepted'
+                else:
+                    val, _ = X.evaluator(s, self.V, self.F, SUFFIXES, max_array_dim=2)
+                    got = 'value %r' % (to_plain(val),)
+            except CE.UnbalancedBrackets:
+                outcome = outcome or 'unbalanced'
+                continue
+            except CE.UnableToParse:
+                outcome = outcome or 'unable-to-parse'
+                continue
+            except Exception as e:
+                got = '%s: %s' % (type(e).__name__, e)
+            return Result('accepted', True,
+                          viol('E9:%s:foreign-character-not-a-parse-error:%s' % (case[0], cat),
+                               '%s(%r) with U+%04X (%s) in it: expected a parse error, got %s'
+                               % (door, s, case[1], unicodedata.name(chr(case[1]), '?'), got), 'parse error', got), 2)
+        return Result(outcome, True, None, 2)
+
+
+# ------------------------------------------------------------------------------------------ E10: evaluation doors with default scope
+
+def sq_user(t):
+    return t * t
+
+
+GD_CONSTANTS = {'c': 299792458.0, 'Kb': 1.5}
+GD_FUNCTIONS = {'f': f_user, 'Sq': sq_user}
+GD_DOORS = [('evaluator', None)] + [(cls, m) for cls in ('NumericalGrader', 'FormulaGrader', 'MatrixGrader')
+                                    for m in ('unset', False, True)]
+_PI, _E = math.pi, math.e
+# (expression, kind, value or error kind, needs)   needs: None | 'metric' (value only when metric suffixes are on) | 'user'
+GD_TABLE = [
+    ('2^3^2', 'val', 512.0, None), ('-2^2', 'val', -4.0, None), ('2^-2^2', 'val', 0.0625, None),
+    ('2||3*4', 'val', 4.8, None), ('8/2/2', 'val', 2.0, None), ('8-2-3', 'val', 3.0, None), ('2*-3', 'val', -6.0, None),
+    ('(2+3)*4', 'val', 20.0, None), ('2*(3+4)^2', 'val', 98.0, None), ('-(2-5)^3', 'val', 27.0, None),
+    ('1.5e2', 'val', 150.0, None), ('.5E-1', 'val', 0.05, None), ('3.e+1', 'val', 30.0, None),
+    ('1 0 0', 'val', 100.0, None), ('2\t*\n3', 'val', 6.0, None), ('2—5', 'val', -3.0, None), ('2^—1', 'val', 0.5, None),
+    ('50%', 'val', 0.5, None), ('2 %', 'val', 0.02, None), ('1e2%', 'val', 1.0, None), ('-5%^2', 'val', -0.0025, None),
+    ('2k', 'val', 2e3, 'metric'), ('3M', 'val', 3e6, 'metric'), ('4G', 'val', 4e9, 'metric'), ('5T', 'val', 5e12, 'metric'),
+    ('6m', 'val', 6e-3, 'metric'), ('7u', 'val', 7e-6, 'metric'), ('8n', 'val', 8e-9, 'metric'), ('9p', 'val', 9e-12, 'metric'),
+    ('1e3k', 'val', 1e6, 'metric'), ('2k^2', 'val', 4e6, 'metric'), ('1/4m', 'val', 250.0, 'metric'), ('2 k', 'val', 2e3, 'metric'),
+    ('2K', 'err', 'undeffunc', None), ('2g', 'err', 'undeffunc', None), ('2U', 'err', 'undeffunc', None), ('2P', 'err', 'undeffunc', None),
+    ('2N', 'err', 'undeffunc', None), ('2t', 'err', 'undeffunc', None), ('2kk', 'err', 'undeffunc', None), ('2%%', 'err', 'undeffunc', None),
+    ('2km', 'err', 'undeffunc', None), ('2mu', 'err', 'undeffunc', None),
+    ('pi', 'val', _PI, None), ('e', 'val', _E, None), ('i^2', 'val', -1.0, None), ('j*j', 'val', -1.0, None),
+    ('2*pi*j', 'val', complex(0, 2 * _PI), None), ('e^(i*pi)', 'val', -1.0, None), ('(1+i)*(1-j)', 'val', 2.0, None),
+    ('2e', 'err', 'undeffunc', None), ('2pi', 'err', 'undeffunc', None), ('2*e', 'val', 2 * _E, None), ('1e1*e', 'val', 10 * _E, None),
+    ('PI', 'err', 'undefvar', None), ('Pi', 'err', 'undefvar', None), ('E', 'err', 'undefvar', None), ('I', 'err', 'undefvar', None),
+    ('J', 'err', 'undefvar', None), ('x', 'err', 'undefvar', None), ('inf', 'err', 'undefvar', None), ('infty', 'err', 'undefvar', None),
+    ('sqrt(16)', 'val', 4.0, None), ('sin(pi/6)', 'val', 0.5, None), ('cos(pi)', 'val', -1.0, None), ('ln(e^2)', 'val', 2.0, None),
+    ('log10(1000)', 'val', 3.0, None), ('log2(8)', 'val', 3.0, None), ('exp(1)', 'val', _E, None), ('abs(-3)', 'val', 3.0, None),
+    ('max(2,7,5)', 'val', 7.0, None), ('min(2,7,5)', 'val', 2.0, None),
+    ('re(2+3*i)', 'val', 2.0, None), ('im(2+3*i)', 'val', 3.0, None),
+    ('sqrt(-4)', 'val', complex(0, 2), None), ('sin(2)^2+cos(2)^2', 'val', 1.0, None), ('-sqrt(4)^-2', 'val', -0.25, None),
+    ('Sqrt(16)', 'err', 'undeffunc', None), ('SIN(1)', 'err', 'undeffunc', None), ('Exp(1)', 'err', 'undeffunc', None),
+    ('LN(2)', 'err', 'undeffunc', None), ('Max(1,2)', 'err', 'undeffunc', None), ('log(2)', 'err', 'undeffunc', None),
+    ('pi(2)', 'err', 'undeffunc', None), ('sin', 'err', 'undefvar', None), ('sqrt 4', 'err', 'undefvar', None),
+    ('c', 'val', 299792458.0, 'user'), ('Kb*2', 'val', 3.0, 'user'), ('f(3)', 'val', 6.0, 'user'), ('Sq(3)', 'val', 9.0, 'user'),
+    ('Sq(f(3))-c/c', 'val', 35.0, 'user'), ('C', 'err', 'undefvar', 'user'), ('kb', 'err', 'undefvar', 'user'), ('KB', 'err', 'undefvar', 'user'),
+    ('F(3)', 'err', 'undeffunc', 'user'), ('sq(3)', 'err', 'undeffunc', 'user'), ('SQ(3)', 'err', 'undeffunc', 'user'),
+    ('2c', 'err', 'undeffunc', 'user'), ('c(2)', 'err', 'undeffunc', 'user'), ('f', 'err', 'undefvar', 'user'),
+    ('2**3', 'err', 'parse', None), ('2 3 +', 'err', 'parse', None), ('sin()', 'err', 'parse', None), ('(2', 'err', 'parse', None),
+    ('2−3', 'err', 'parse', None), ('２', 'err', 'parse', None), ('2\t3', 'err', 'parse', None), ('p\ti', 'err', 'parse', None),
+    ('', 'blank', None, None), ('   ', 'blank', None, None), ('\t\n', 'blank', None, None),
+]
+
+
+class Doors(Family):
+    """E10: the same language through every door, with the scope options left at their defaults"""
+    name = 'E10_doors'
+    timeout = 20.0
+    rule = ('a table of %d constant expressions (operator semantics, literal formats, %% and every metric suffix, every default '
+            'constant, a sample of default functions, user constants and functions, wrong-case spellings of each, strings outside '
+            'the grammar, blank input) x door {evaluator(formula) with NO scope arguments; NumericalGrader, FormulaGrader, '
+            'MatrixGrader each with metric_suffixes unset / False / True}: a grader whose answer is the literal value must mark '
+            'the expression correct and one whose answer is off by 1e-4 (relative) must mark it incorrect, in both roles '
+            '(expression as student input, expression as author answer); a metric suffix is a value only when metric_suffixes '
+            'is on; a name outside the scope is an undefined-name error, a string outside the grammar a parse error; blank '
+            'input is incorrect, not an error' % len(GD_TABLE))
+
+    def cases(self, tier):
+        for d in range(len(GD_DOORS)):
+            for e in range(len(GD_TABLE)):
+                if GD_DOORS[d][0] == 'evaluator' and GD_TABLE[e][3] == 'user':
+                    continue
+                yield (d, e)
+
+    def describe(self, case):
+        d, e = case
+        return {'door': GD_DOORS[d][0], 'metric_suffixes': GD_DOORS[d][1], 'expression': GD_TABLE[e][0],
+                'expected': GD_TABLE[e][1:3]}
+
+    @staticmethod
+    def literal(v):
+        if isinstance(v, complex):
+            return '(%r)+(%r)*i' % (v.real, v.imag)
+        return repr(float(v))
+
+    def make(self, door, metric, answers):
+        import mitxgraders as MG
+        kw = {'answers': answers, 'tolerance': '0.00001%', 'user_constants': dict(GD_CONSTANTS),
+              'user_functions': dict(GD_FUNCTIONS)}
+        if metric != 'unset':
+            kw['metric_suffixes'] = metric
+        return getattr(MG, door)(**kw)
+
+    def check(self, case):
+        d, e = case
+        door, metric = GD_DOORS[d]
+        expr, kind, target, needs = GD_TABLE[e]
+        if needs == 'metric' and metric is not True:
+            kind, target = 'err', 'undeffunc'
+        where = '%s%s on %r' % (door, '' if metric in (None, 'unset') else '(metric_suffixes=%r)' % metric, expr)
+        calls = 0
+
+        def run(fn):
+            try:
+                return ('ret', fn())
+            except Exception as ex:
+                return ('err', real_kind(ex), '%s: %s' % (type(ex).__name__, ex))
+
+        if door == 'evaluator':
+            calls += 1
+            got = run(lambda: X.evaluator(expr)[0])
+            if kind == 'blank':
+                if got[0] == 'ret' and isinstance(got[1], float) and math.isnan(got[1]):
+                    return Result('blank', True, None, calls)
+                return Result('blank', True, viol('E10:evaluator:blank-not-nan', '%s: expected nan, got %r' % (where, got)), calls)
+            if kind == 'val':
+                if got[0] != 'ret':
+                    return Result('value', True, viol('E10:evaluator:error-instead-of-value',
+                                                      '%s: expected %r, got %s' % (where, target, got[2]), target, got[2]), calls)
+                if not R.close(target, to_plain(got[1])):
+                    return Result('value', True, viol('E10:evaluator:wrong-value',
+                                                      '%s: expected %r, got %r' % (where, target, got[1]), target, got[1]), calls)
+                return Result('value', True, None, calls)
+            if got[0] == 'ret':
+                return Result('err', True, viol('E10:evaluator:value-instead-of-error',
+                                                '%s: expected a %s error, got %r' % (where, target, got[1]), target, got[1]), calls)
+            if got[1] != target:
+                return Result('err', True, viol('E10:evaluator:wrong-error-kind',
+                                                '%s: expected a %s error, got %s' % (where, target, got[2]), target, got[2]), calls)
+            return Result('err:' + target, True, None, calls)
+
+        if kind == 'blank':
+            calls += 1
+            got = run(lambda: self.make(door, metric, '1')(None, expr))
+            if got[0] == 'ret' and got[1].get('ok') is False:
+                return Result('blank', True, None, calls)
+            return Result('blank', True, viol('E10:grader:blank-input-not-incorrect',
+                                              '%s: expected an incorrect verdict, got %r' % (where, got)), calls)
+        if kind == 'err':
+            calls += 1
+            got = run(lambda: self.make(door, metric, '1')(None, expr))
+            if got[0] == 'ret':
+                return Result('err', True, viol('E10:grader:verdict-instead-of-error',
+                                                '%s: expected a %s error, got the verdict %r' % (where, target, got[1]), target, got[1]), calls)
+            if got[1] != target:
+                return Result('err', True, viol('E10:grader:wrong-error-kind',
+                                                '%s: expected a %s error, got %s' % (where, target, got[2]), target, got[2]), calls)
+            return Result('err:' + target, True, None, calls)
+        lit = self.literal(target)
+        miss = self.literal(target * (1 + 1e-4))
+        plan = [('student', lit, expr, True), ('student', miss, expr, False),
+                ('author', expr, lit, True), ('author', expr, miss, False)]
+        for role, answers, student, want in plan:
+            calls += 1
+            got = run(lambda: self.make(door, metric, answers)(None, student))
+            if got[0] != 'ret':
+                return Result('value', True,
+                              viol('E10:grader:error-instead-of-verdict',
+                                   '%s (expression as %s input, other side %r): %s' % (where, role, answers if role == 'student' else student, got[2]),
+                                   want, got[2]), calls)
+            if got[1].get('ok') is not want:
+                return Result('value', True,
+                              viol('E10:grader:wrong-verdict:%s' % ('rejects-equal' if want else 'accepts-different'),
+                                   '%s = %r (expression as %s input): answers=%r, student input %r gave ok=%r, expected %r'
+                                   % (where, target, role, answers, student, got[1].get('ok'), want), want, got[1].get('ok')), calls)
+        return Result('value', True, None, calls)
+
+
+# ------------------------------------------------------------------------------------------ E11: depth and length
+
+DEPTHS = [1, 2, 3, 4, 5, 6, 8, 13, 21, 34]
+
+
+def _fold_right_pow(base, exps):
+    v = exps[-1]
+    for b in reversed(exps[:-1]):
+        v = b ** v
+    return base ** v
+
+
+DEPTH_KINDS = [
+    # name, text(d), value(d)
+    ('parentheses around a leaf', lambda d: '3*' + '(' * d + '2' + ')' * d + '^2', lambda d: 12.0),
+    ('parentheses around a sum', lambda d: '(' * d + '2+3' + ')' * d + '*2', lambda d: 10.0),
+    ('nested negated parentheses', lambda d: '-(' * d + '2' + ')' * d, lambda d: 2.0 * (-1) ** d),
+    ('nested function calls', lambda d: 'h(' * d + '1' + ')' * d, lambda d: 1.0 + d),
+    ('nested 2-argument calls', lambda d: 'g(' * d + '1' + ',1)' * d, lambda d: 1.0 - 2.0 * d),
+    ('power tower with signed exponents', lambda d: '2' + '^-1' * d, lambda d: 0.5),
+    ('power tower, sign on the last exponent only', lambda d: '4' + '^0.5' * d + '^-1', lambda d: _fold_right_pow(4.0, [0.5] * d + [-1.0])),
+    ('power tower, sign on the first exponent only', lambda d: '4^-0.5' + '^0.5' * d, lambda d: 4.0 ** -(_fold_right_pow(0.5, [0.5] * d))),
+    ('sum chain', lambda d: '1' + '+1' * d, lambda d: 1.0 + d),
+    ('difference chain', lambda d: '1' + '-1' * d, lambda d: 1.0 - d),
+    ('alternating sum chain', lambda d: '1' + ''.join('-+'[k % 2] + str(k + 2) for k in range(d)),
+     lambda d: 1.0 + sum((-1) ** (k + 1) * (k + 2) for k in range(d))),
+    ('product chain', lambda d: '1' + '*2' * d, lambda d: 2.0 ** d),
+    ('quotient chain', lambda d: '1024' + '/2' * d, lambda d: 1024.0 / 2.0 ** d),
+    ('alternating product chain', lambda d: '3' + ''.join('*/'[k % 2] + '2' for k in range(d)), lambda d: 3.0 * 2.0 ** (d % 2)),
+    ('parallel chain', lambda d: '1' + '||1' * d, lambda d: 1.0 / (d + 1)),
+    ('parallel chain with negations', lambda d: '-2' + '||-2' * d, lambda d: -2.0 / (d + 1)),
+    ('negation after every operator', lambda d: '1' + ''.join('+*-/'[k % 4] + '-2' for k in range(d)), None),
+]
+
+
+def _neg_after_every(d):
+    # 1 + -2 * -2 - -2 / -2 + -2 ...   evaluated by precedence with exact small arithmetic
+    terms = [[1.0]]
+    signs = [1]
+    for k in range(d):
+        op = '+*-/'[k % 4]
+        if op == '+':
+            terms.append([-2.0])
+            signs.append(1)
+        elif op == '-':
+            terms.append([-2.0])
+            signs.append(-1)
+        elif op == '*':
+            terms[-1].append(('*', -2.0))
+        else:
+            terms[-1].append(('/', -2.0))
+    total = 0.0
+    for sg, t in zip(signs, terms):
+        v = t[0]
+        for op, x in t[1:]:
+            v = v * x if op == '*' else v / x
+        total += sg * v
+    return total
+
+
+class Depth(Family):
+    """E11: nesting depth and chain length beyond the exhaustive bounds of E1/E2/E7"""
+    name = 'E11_depth'
+    rule = ('%d one-parameter formula schemes (redundant parentheses around a leaf / a sum, nested negations, nested 1- and '
+            '2-argument calls, power towers with signs on every / the last / the first exponent, chains of each operator and '
+            'mixed chains) at depth or length d in %r with closed-form values' % (len(DEPTH_KINDS), DEPTHS))
+
+    def cases(self, tier):
+        for k in range(len(DEPTH_KINDS)):
+            for d in DEPTHS:
+                yield (k, d)
+
+    def describe(self, case):
+        return {'scheme': DEPTH_KINDS[case[0]][0], 'text': DEPTH_KINDS[case[0]][1](case[1])}
+
+    def isolate(self):
+        X.PARSER = X.MathParser()
+
+    def check(self, case):
+        k, d = case
+        name, mk, val = DEPTH_KINDS[k]
+        s = mk(d)
+        exp = val(d) if val is not None else _neg_after_every(d)
+        try:
+            got, _ = X.evaluator(s, {}, {'h': h_plus1, 'g': g2}, {})
+        except Exception as e:
+            return Result('error', True, viol('E11:error-instead-of-value:' + name,
+                                              '%r (%s, d=%d): expected %r, got %s: %s' % (s, name, d, exp, type(e).__name__, e),
+                                              exp, repr(e)))
+        if not R.close(exp, to_plain(got)):
+            return Result('wrong', True, viol('E11:wrong-value:' + name,
+                                              '%r (%s, d=%d): expected %r, got %r' % (s, name, d, exp, got), exp, got))
+        return Result('value' if d <= 4 else 'value-beyond-exhaustive-bound', True)
+
+
 def families(tier):
     return [
         TokenStrings('E1', E1_TOKENS, {'quick': 5, 'thorough': 6}),
@@ -679,4 +1322,11 @@ def families(tier):
         Literals(),
         ArrayProducts(),
         FrontDoor(),
+        Trees(),
+        InsertedWhitespace(),
+        ForeignCharacters(),
+        Doors(),
+        Depth(),
+        TokenStrings('E1s', E1S_TOKENS, {'quick': 4, 'thorough': 5},
+                     note=' (suffix characters % and k next to names, calls, parentheses and operators)'),
     ]
